@@ -47,10 +47,9 @@ theorem getSlice_refines (c : Codec V) (hL : 0 < c.w) (d : Bits) (s e st : Optio
     (getSlice c d s e st).map (items c) = Py.getSlice (items c d) s e st ∧
     ∀ r, getSlice c d s e st = .ok r → trailing c.w r = [] := by
   have hc := getSlice_chunks c hL d s e st
-  have hw := w_eq_L c hu
   have hit : items c d = (chunks c.w d).map c.dec := rfl
   have hcl : ∀ b ∈ chunks c.w d, b.length = c.w := by
-    rw [hw]; exact chunks_mem_length c.w hL d
+    exact chunks_mem_length c.w hL d
   rw [hc, hit, pyGetSlice_map]
   cases hp : Py.getSlice (chunks c.w d) s e st with
   | error er => exact ⟨rfl, fun r hr => by cases hr⟩
@@ -177,9 +176,7 @@ theorem reverse_refines (c : Codec V) (hL : 0 < c.w) (d : Bits) (ht : trailing c
 /-- With trailing bits `reverse` raises and changes nothing. -/
 theorem reverse_trailing_rejects (c : Codec V) (hL : 0 < c.w) (d : Bits) (ht : trailing c.w d ≠ []) :
     (reverse c d).res = .error .value ∧ (reverse c d).data = d := by
-  have hw := w_eq_L c hu
   have hm : d.length % c.w ≠ 0 := by
-    rw [hw] at ht
     exact fun h0 => ht ((trailing_nil_iff c.w d).mpr h0)
   unfold reverse
   rw [if_pos hm]
